@@ -363,6 +363,68 @@ mod u128 {
     }
 }
 
+/// Narrow-width instantiations of the number traits, used only by the solver-based checks in
+/// `/verif` (`--cfg gmsol_verif`): the generic model code is run at `u8`/`u16`/`u32`. The bodies
+/// mirror the `u64` implementation (widen to the next type, divide, narrow).
+#[cfg(gmsol_verif)]
+mod verif_narrow {
+    use super::{MulDiv, Unsigned, UnsignedAbs};
+
+    macro_rules! narrow {
+        ($u:ty, $i:ty, $w:ty) => {
+            impl Unsigned for $u {
+                type Signed = $i;
+
+                fn diff(self, other: Self) -> Self {
+                    self.abs_diff(other)
+                }
+            }
+
+            impl UnsignedAbs for $i {
+                type Unsigned = $u;
+
+                fn unsigned_abs(&self) -> $u {
+                    (*self).unsigned_abs()
+                }
+            }
+
+            impl MulDiv for $u {
+                #[allow(clippy::arithmetic_side_effects)]
+                fn checked_mul_div(&self, numerator: &Self, denominator: &Self) -> Option<Self> {
+                    if *denominator == 0 {
+                        return None;
+                    }
+                    let x = *self as $w;
+                    let numerator = *numerator as $w;
+                    let denominator = *denominator as $w;
+                    let ans = x * numerator / denominator;
+                    ans.try_into().ok()
+                }
+
+                #[allow(clippy::arithmetic_side_effects)]
+                fn checked_mul_div_ceil(
+                    &self,
+                    numerator: &Self,
+                    denominator: &Self,
+                ) -> Option<Self> {
+                    if *denominator == 0 {
+                        return None;
+                    }
+                    let x = *self as $w;
+                    let numerator = *numerator as $w;
+                    let denominator = *denominator as $w;
+                    let ans = (x * numerator).div_ceil(denominator);
+                    ans.try_into().ok()
+                }
+            }
+        };
+    }
+
+    narrow!(u8, i8, u16);
+    narrow!(u16, i16, u32);
+    narrow!(u32, i32, u64);
+}
+
 #[cfg(test)]
 mod tests {
     use super::*;
